@@ -902,7 +902,7 @@ def stage_reads(ctx, sv_inputs, sv_seen):
         if sv_inputs is None:
             return None
         only = None
-        cap = 150 if ctx.quick else 3000
+        cap = 150 if ctx.quick else 1000
         cands = []
         for i in sv_inputs:
             if any(l.get("tx", {}).get("tz") for l in i["logs"]):
@@ -939,8 +939,8 @@ def stage_reads(ctx, sv_inputs, sv_seen):
                         for a in (q["source"], q["destination"]):
                             if a not in accts and re.fullmatch(r"[a-zA-Z0-9_:]+", a):
                                 accts.append(a)
-            for t in c04eval.instants(h["logs"], ledger, 6 if ctx.quick else 16):
-                for a in [None] + accts[:2 if ctx.quick else 6]:
+            for t in c04eval.instants(h["logs"], ledger, 6 if ctx.quick else 10):
+                for a in [None] + accts[:2 if ctx.quick else 4]:
                     if only and (ledger, t, a) != tuple(only):
                         continue
                     cases.append({"id": len(cases), "method": "GetAggregatedBalances", "ledger": ledger, "pit": t, "vol": False, "eff": False, "arg": "",
